@@ -423,7 +423,7 @@ func r158(c *Ctx, r *R) {
 }
 
 func init() {
-	register(&Rule{ID: "R17.6", Props: []string{"C17", "C14"}, Floor: 3, Title: "a removed peer's raft data is really discarded: the backup rotation vacates the oldest slot recursively before renaming, the data folder is moved or removed on every cleaning path, and no flat os.Remove is used on these folders", Run: r176})
+	register(&Rule{ID: "R17.6", Props: []string{"C17", "C14"}, Floor: 5, Title: "a removed peer's raft data is really discarded: the backup rotation vacates the oldest slot recursively before renaming, the data folder is moved or removed on every cleaning path, and no flat os.Remove is used on these folders", Run: r176})
 }
 
 // r176: "a removed peer ... discards its consensus data" (C17). CleanupRaft
@@ -476,6 +476,47 @@ func r176(c *Ctx, r *R) {
 		}
 	}
 	r.Check(okMove, "rotation:moves-live-folder", mb.Pos(), "the live data folder is renamed into the first backup slot and that result is returned", "makeBackup does not end by renaming the live data folder into the first backup slot")
+	// listBackups returns the contiguous run name.old.0 .. name.old.k (the
+	// rotation relies on backups[i] being slot i): once a slot is missing
+	// nothing more is appended
+	if lb := c.fn(r, "consensus/raft", "dataBackupHelper.listBackups"); lb != nil {
+		var apps []ssa.CallInstruction
+		for _, ci := range callsIn(lb) {
+			if callName(ci.Common()) == "builtin.append" {
+				apps = append(apps, ci)
+			}
+		}
+		okContig, seen := true, 0
+		for _, b := range lb.Blocks {
+			iff, ok := b.Instrs[len(b.Instrs)-1].(*ssa.If)
+			if !ok {
+				continue
+			}
+			cond, branch := iff.Cond, true
+			for {
+				if u, ok := cond.(*ssa.UnOp); ok && u.Op == token.NOT {
+					cond, branch = u.X, !branch
+					continue
+				}
+				break
+			}
+			call, _ := originCall(cond)
+			if call == nil || !nameMatches(callName(call.Common()), "=os.IsNotExist") {
+				continue
+			}
+			seen++
+			missing := b.Succs[0]
+			if !branch {
+				missing = b.Succs[1]
+			}
+			for _, a := range apps {
+				if a.Block() == missing || blockReaches(missing, a.Block()) {
+					okContig = false
+				}
+			}
+		}
+		r.Check(okContig && seen > 0 && len(apps) > 0, "rotation:list-contiguous", lb.Pos(), "listBackups stops at the first missing slot (position in the list = slot number)", "listBackups goes on collecting after a missing slot: the list no longer maps position to slot number, so with a gap in the numbering the renames hit existing folders, fail, and the live data folder is neither moved nor recoverable as the newest backup")
+	}
 	// CleanupRaft: every path either removes the folder or makes the backup
 	okPaths := true
 	for _, ret := range returnsOf(cr) {
@@ -901,3 +942,202 @@ func r078(c *Ctx, r *R) {
 }
 
 func shortQual(p *types.Package) string { return p.Name() }
+
+func init() {
+	register(&Rule{ID: "R11.7", Props: []string{"C11", "C13"}, Floor: 4, Title: "mid-stream add errors reach the client: the server announces and sets the X-Stream-Error trailer when the add fails, and the client reads that trailer only after the response body was read to its end (net/http fills trailers at EOF) and turns it into an error", Run: r117})
+}
+
+func r117(c *Ctx, r *R) {
+	// server side: Trailer announced before WriteHeader, set under err != nil
+	srv := c.fn(r, "adder/adderutils", "AddMultipartHTTPHandler")
+	var trailerName string
+	if srv != nil {
+		announced, setOnErr := false, false
+		for _, ci := range findCalls(srv, false, "(net/http.Header).Set") {
+			a := callArgs(ci.Common())
+			k0, ok0 := constOf(a[0])
+			if !ok0 || k0 == nil || k0.Kind() != constant.String {
+				continue
+			}
+			if constant.StringVal(k0) == "Trailer" {
+				if k1, ok1 := constOf(a[1]); ok1 && k1 != nil && k1.Kind() == constant.String {
+					trailerName = constant.StringVal(k1)
+					// before the status line is written
+					for _, wh := range findCalls(srv, false, "net/http.ResponseWriter).WriteHeader") {
+						if wh.Block() == ci.Block() && dominatesInstr(ci, wh) || ci.Block().Dominates(wh.Block()) && ci.Block() != wh.Block() {
+							announced = true
+						}
+					}
+				}
+			}
+		}
+		for _, ci := range findCalls(srv, false, "(net/http.Header).Set") {
+			a := callArgs(ci.Common())
+			if k0, ok0 := constOf(a[0]); ok0 && k0 != nil && k0.Kind() == constant.String && constant.StringVal(k0) == trailerName && trailerName != "" {
+				if guardedBy(ci.Block(), func(g Guard) bool {
+					return gNil(g, true, func(v ssa.Value) bool {
+						cc, _ := originCall(v)
+						return cc != nil && nameMatches(callName(cc.Common()), "adder.Adder).FromMultipart")
+					})
+				}) {
+					setOnErr = true
+				}
+			}
+		}
+		r.Check(announced, "server:trailer-announced", srv.Pos(), "the streaming add announces its error trailer before the status line", "the streaming add no longer announces an error trailer before WriteHeader: an error after the 200 cannot be reported")
+		r.Check(setOnErr, "server:trailer-set-on-error", srv.Pos(), "a failed add sets the announced trailer", "a failed streaming add no longer sets the announced error trailer: the client sees a successful, truncated stream")
+	}
+	// client side
+	f := c.fn(r, "api/rest/client", "defaultClient.handleStreamResponse")
+	if f == nil {
+		return
+	}
+	var get ssa.CallInstruction
+	for _, ci := range findCalls(f, false, "(net/http.Header).Get") {
+		if fl, _ := fieldLoad(ci.Common().Args[0]); fl != nil && fl.Name() == "Trailer" {
+			get = ci
+		}
+	}
+	if get == nil {
+		r.Bad("client:reads-trailer", f.Pos(), "the client never reads the response trailers of a streaming request: an add that failed after the 200 is reported as success")
+		return
+	}
+	if k, ok := constOf(get.Common().Args[1]); ok && k != nil && k.Kind() == constant.String {
+		r.Check(trailerName == "" || constant.StringVal(k) == trailerName, "client:same-trailer", get.Pos(), "client and server agree on the trailer name", fmt.Sprintf("the client reads trailer %s, the server sets %q", k, trailerName))
+	}
+	// body reads: uses of the decoder built on resp.Body
+	var dec ssa.Value
+	for _, ci := range findCalls(f, false, "encoding/json.NewDecoder") {
+		dec = ci.(ssa.Value)
+	}
+	if dec == nil {
+		r.Und("client:decoder", f.Pos(), "no json decoder over the response body found in handleStreamResponse")
+		return
+	}
+	early := ""
+	for _, ref := range *dec.Referrers() {
+		ci, ok := ref.(ssa.CallInstruction)
+		if !ok {
+			continue
+		}
+		after := false
+		if ci.Block() == get.Block() {
+			after = dominatesInstr(get, ci)
+		} else {
+			after = blockReaches(get.Block(), ci.Block())
+		}
+		if after {
+			early = c.P.Pos(ci.Pos())
+		}
+	}
+	r.Check(early == "", "client:trailer-after-body", get.Pos(), "the trailer is read when nothing more is read from the body", "the trailer is read before the body was consumed (body read at "+early+" follows): net/http fills Response.Trailer only at EOF, so the error trailer is always empty and a failed add is reported as success")
+	// a non-empty trailer becomes an error
+	toErr := false
+	for _, lf := range returnLeaves(f, 0) {
+		if !isNilConst(lf.Val) && lf.GuardedBy(func(g Guard) bool {
+			x, k, tme, ok := eqConst(g.Cond)
+			if !ok || k.Kind() != constant.String || constant.StringVal(k) != "" {
+				return false
+			}
+			cc, _ := originCall(x)
+			return cc != nil && ssa.Value(cc) == get.(ssa.Value) && tme != g.Branch
+		}) {
+			toErr = true
+		}
+	}
+	r.Check(toErr, "client:trailer-becomes-error", get.Pos(), "a non-empty error trailer is returned as an error", "a non-empty error trailer no longer becomes an error")
+}
+
+func init() {
+	register(&Rule{ID: "R15.10", Props: []string{"C15", "C07"}, Floor: 4, Title: "list settings are replaced, not accumulated: a loader that appends to a configuration field first stores a fresh value into it (loaders run on already-loaded configurations: ApplyEnvVars after LoadJSON)", Run: r1510})
+}
+
+func r1510(c *Ctx, r *R) {
+	ccs := c.componentConfigs(r)
+	n := 0
+	for _, cc := range ccs {
+		loadRoot, _ := c.P.FuncDecl(cc.rel, cc.name+".LoadJSON")
+		if loadRoot == nil {
+			continue
+		}
+		label := cc.rel + "." + cc.name
+		roots := []*ast.FuncDecl{loadRoot}
+		if env, _ := c.P.FuncDecl(cc.rel, cc.name+".ApplyEnvVars"); env != nil {
+			roots = append(roots, env)
+		}
+		seenF := map[*ssa.Function]bool{}
+		for _, root := range roots {
+			for _, d := range funcsCalledFrom(c.P, cc.pkg, root) {
+				obj, _ := cc.pkg.TypesInfo.Defs[d.Name].(*types.Func)
+				if obj == nil {
+					continue
+				}
+				f := c.P.SSA.FuncValue(obj)
+				if f == nil || f.Blocks == nil || seenF[f] {
+					continue
+				}
+				seenF[f] = true
+				isCfgField := func(v ssa.Value) *types.Var {
+					fa, ok := v.(*ssa.FieldAddr)
+					if !ok {
+						return nil
+					}
+					t := fa.X.Type()
+					if p, ok := t.(*types.Pointer); ok {
+						t = p.Elem()
+					}
+					if t != types.Type(cc.t) {
+						return nil
+					}
+					return fieldOfAddr(fa)
+				}
+				instrs(f, func(i ssa.Instruction) {
+					st, ok := i.(*ssa.Store)
+					if !ok {
+						return
+					}
+					fld := isCfgField(st.Addr)
+					if fld == nil {
+						return
+					}
+					ap, ok := st.Val.(*ssa.Call)
+					if !ok || callName(ap.Common()) != "builtin.append" {
+						return
+					}
+					// self-append: first operand is (derived from) a load of the same field
+					self := false
+					for _, l := range phiLeaves(ap.Common().Args[0]) {
+						if ld, ok := l.(*ssa.UnOp); ok && ld.Op == token.MUL {
+							if g := isCfgField(ld.X); g == fld {
+								self = true
+							}
+						}
+						if l == ssa.Value(ap) {
+							continue
+						}
+					}
+					if !self {
+						return
+					}
+					n++
+					// a dominating store of a value not derived from the field
+					fresh := false
+					instrs(f, func(j ssa.Instruction) {
+						s2, ok := j.(*ssa.Store)
+						if !ok || s2 == st || isCfgField(s2.Addr) != fld {
+							return
+						}
+						if c2, ok := s2.Val.(*ssa.Call); ok && callName(c2.Common()) == "builtin.append" {
+							return
+						}
+						if s2.Block() == st.Block() && dominatesInstr(s2, st) || s2.Block() != st.Block() && s2.Block().Dominates(st.Block()) {
+							fresh = true
+						}
+					})
+					r.Check(fresh, label+":"+f.Name()+":"+fld.Name(), st.Pos(), "the list is reset before elements are appended", fmt.Sprintf("%s appends to the configuration field %s without first storing a fresh value into it: applied to an already-loaded configuration (ApplyEnvVars after LoadJSON, a second LoadJSON) the old elements stay and the list grows", f.Name(), fld.Name()))
+				})
+			}
+		}
+	}
+	_ = n
+}
